@@ -50,7 +50,8 @@ import json,sys,os
 m=json.load(open(sys.argv[1]))
 m['seed_id']=sys.argv[3]
 m['round']=int(sys.argv[3][-1]) if sys.argv[3][-1].isdigit() else 1
-if m['round']==6: m['round_note']='sixth round: the prompt of the fifth round given to fresh sub-agents after the count ladder, the iterator laws, clone_from, the facade configurations etc. had been built -- an independent sample of the same kind of change'
+if m['round']==7: m['round_note']='seventh round: the sub-agent was told that the checker is thorough about single sites (inputs of every size, every table row, trait impl, iterator method, call pairs, short histories, feature combinations) and was asked for two cooperating sites that each look fine alone, or an internal-representation invariant that only a specific history breaks and only a specific later call observes'
+elif m['round']==6: m['round_note']='sixth round: the prompt of the fifth round given to fresh sub-agents after the count ladder, the iterator laws, clone_from, the facade configurations etc. had been built -- an independent sample of the same kind of change'
 elif m['round']==5: m['round_note']='fifth round: as the fourth, and the sub-agent was asked to make the change depend on something larger or rarer than short inputs, single/double edits, table rows, call pairs and short histories: count thresholds, histories of three or four specific calls, iterator methods other than next(), specific pairs of table rows, combinations of three or more subtags, facade feature forwarding, Debug/Default/Clone/Hash/Borrow/AsRef'
 elif m['round']==4: m['round_note']='fourth round: as the third, and the sub-agent was asked to put the change at a less obvious site (trait impls, constructors/destructors, rarely used getters and mutators, the facade and macro crates, the generator binaries, feature-gated code) and to make it depend on a specific relation between values or calls'
 elif m['round']==3: m['round_note']='third round: the sub-agent was given the property text and a scratch worktree, was told that a bounded-exhaustive checker with a reference model exists (nothing about its spaces), and was asked for a change needing a specific multi-step history, unusual input, rarely used entry point or two cooperating sites'
